@@ -48,6 +48,12 @@ class Engine:
     def canon(self, out_line):
         return out_line
 
+    def model_input(self, line, impl_out):
+        """the line fed to the model driver for this case.  Default: the case itself (the model
+        predicts the output).  Relational engines (model with an abstract oracle component) append
+        the implementation's output so that the driver can replay its choices as the oracle."""
+        return line
+
 
 def ddmin(ops, test):
     """delta debugging: smallest sublist of ops for which test(ops) is still True"""
@@ -135,7 +141,8 @@ class Run:
             t1 = time.time()
             impl = C.run_lines(impl_exes[eng.exe], cases, shards=16, per_shard=getattr(eng, 'per_shard', 50))
             t2 = time.time()
-            mod = impl if getattr(eng, "model_free", False) else C.run_lines(models[eng.exe], cases, shards=16)
+            mod = impl if getattr(eng, "model_free", False) else \
+                C.run_lines(models[eng.exe], [eng.model_input(c, a) for c, a in zip(cases, impl)], shards=16)
             t3 = time.time()
             shapes = set()
             hist = {}
@@ -171,7 +178,7 @@ class Run:
         a = C.run_lines(self._impl_exes[eng.exe], [line], shards=1)[0]
         if getattr(eng, "model_free", False):
             return eng.canon(a), eng.canon(a)
-        b = C.run_lines(self._models[eng.exe], [line], shards=1)[0]
+        b = C.run_lines(self._models[eng.exe], [eng.model_input(line, a)], shards=1)[0]
         return eng.canon(a), eng.canon(b)
 
     def shrink_mismatch(self, rec):
